@@ -322,6 +322,34 @@ func runC10(seed int64, n int, dir string, tier string) *Report {
 		rep.NoteCase(c, len(props.InterStr(props.NodeSet(a), props.NodeSet(b))) > 0, in)
 	}
 	I := func(x, y *sbom.NodeList) *sbom.NodeList { return clone(x).Intersect(clone(y)) }
+	// (source, type) pairs whose textual concatenation coincides (n1 + 5 and n + 15): keys built from an
+	// identifier and a number must keep them apart
+	for _, c := range []struct {
+		d      string
+		t1, t2 int32
+	}{{"1", 5, 15}, {"1", 0, 10}, {"4", 4, 44}, {"2", 3, 23}, {"3", 9, 39}, {"1", 1, 11}} {
+		mk := func(from string, t int32, to string) *sbom.NodeList {
+			l := &sbom.NodeList{RootElements: []string{"n"}}
+			for _, id := range []string{"n", "n" + c.d, "y", "z"} {
+				l.Nodes = append(l.Nodes, &sbom.Node{Id: id, Name: "name-" + id})
+			}
+			l.Edges = []*sbom.Edge{{Type: sbom.Edge_Type(t), From: from, To: []string{to}}}
+			return l
+		}
+		a, b := mk("n"+c.d, c.t1, "y"), mk("n", c.t2, "z")
+		for _, pr := range [][2]*sbom.NodeList{{a, b}, {b, a}} {
+			addCase(pr[0], pr[1])
+			rep.OracleEvals++
+			got := props.TripleSet(I(pr[0], pr[1]))
+			want := props.TripleSet(pr[0])
+			for k := range props.TripleSet(pr[1]) {
+				want[k] = true
+			}
+			if !props.SameTripleSet(got, want) {
+				rep.Fail(Failure{What: "Intersect: the edges of the result are not the operands' edges among the surviving nodes", Detail: fmt.Sprintf("source identifiers n%s / n with edge types %d / %d", c.d, c.t1, c.t2), Input: pairInput([]string{"a", "b"}, pr[0], pr[1])})
+			}
+		}
+	}
 	for i := 0; i < n; i++ {
 		a := g.NodeList(operandShape(g, i))
 		b := g.NodeList(operandShape(g, i+1))
